@@ -1,3 +1,5 @@
+mod budget;
+mod sched;
 mod util;
 mod wal;
 
@@ -11,6 +13,7 @@ fn main() {
     let args = util::parse_args(&argv[2..]);
     match argv[1].as_str() {
         "wal-replay" => wal::replay(&args),
+        "budget-replay" => budget::replay(&args),
         "wal-faults" => wal::fault_sweep(&args),
         other => {
             eprintln!("unknown subcommand {}", other);
